@@ -432,12 +432,14 @@ Qed.
 
 (* ---- histories: how the stream id travels ----------------------------------- *)
 Local Arguments assemble : simpl never.
+(* request c is an /init that opened a stream and minted [sid] — with or without
+   a hook installed on the process that served it *)
 Definition opened_by (all : list op) (c : nat) (sid : bytes) : Prop :=
-  exists node q, nth_error all c = Some (OInit node q sid true).
+  exists node q h, nth_error all c = Some (OInit node q sid true h).
 
 Definition inv (all : list op) (st : state) : Prop :=
   (forall s, In s (st_streams st) -> opened_by all (t_call s) (t_sid s))
-  /\ (forall c sid, In (c, sid) (st_cache st) -> opened_by all c sid).
+  /\ (forall n c sid, In ((n, c), sid) (st_cache st) -> opened_by all c sid).
 
 Lemma find_stream_some c l s : find_stream c l = Some s -> In s l /\ t_call s = c.
 Proof.
@@ -446,10 +448,11 @@ Proof.
   - intro H. destruct (IH H). auto.
 Qed.
 
-Lemma cache_get_some c l v : cache_get c l = Some v -> In (c, v) l.
+Lemma cache_get_some node c l v : cache_get node c l = Some v -> In ((node, c), v) l.
 Proof.
-  induction l as [|[k x] t IH]; cbn; [discriminate|]. destruct (Nat.eqb k c) eqn:E.
-  - intro H; inversion H; subst. apply Nat.eqb_eq in E. subst. now left.
+  induction l as [|[[n k] x] t IH]; cbn; [discriminate|]. destruct (Nat.eqb n node && Nat.eqb k c) eqn:E.
+  - intro H; inversion H; subst. apply andb_true_iff in E as [E1 E2].
+    apply Nat.eqb_eq in E1. apply Nat.eqb_eq in E2. subst. now left.
   - intro H. right. now apply IH.
 Qed.
 
@@ -459,17 +462,18 @@ Lemma resolve_spec all node st s t sid st' :
 Proof.
   intros [I1 I2] Hs. unfold resolve.
   assert (Hopen : opened_by all (t_call s) (t_sid s)) by auto.
-  destruct (Nat.eqb node 0) eqn:En.
-  - destruct (cache_get (t_call s) (st_cache st)) as [v|] eqn:Ec.
-    + apply cache_get_some in Ec. destruct t; intro H; inversion H; subst; (split; [auto | split; [split; assumption | reflexivity]]).
+  destruct (caching node) eqn:En.
+  - destruct (cache_get node (t_call s) (st_cache st)) as [v|] eqn:Ec.
+    + apply cache_get_some in Ec. apply I2 in Ec.
+      destruct t; intro H; inversion H; subst; (split; [exact Ec | split; [split; assumption | reflexivity]]).
     + destruct t; intro H; inversion H; subst. split; [exact Hopen | split; [|reflexivity]].
-      split; cbn; [exact I1|]. intros c sid' [Hc|Hc]; [inversion Hc; subst; exact Hopen | auto].
+      split; cbn; [exact I1|]. intros n c sid' [Hc|Hc]; [inversion Hc; subst; exact Hopen | eauto].
   - destruct t; intro H; inversion H; subst; (split; [exact Hopen | split; [split; assumption | reflexivity]]).
 Qed.
 
 Lemma step_next st o : st_next (snd (step st o)) = S (st_next st).
 Proof.
-  destruct o as [d|q|q sid|node q sid opened|node c t cancel q fresh|q]; cbn; try reflexivity.
+  destruct o as [d|q|q sid|node q sid opened h|node c t cancel q fresh h|q|]; cbn; try reflexivity.
   destruct (find_stream c (st_streams st)) as [s|]; [|reflexivity].
   destruct (resolve node st s t) as [[sid st']|]; reflexivity.
 Qed.
@@ -478,28 +482,28 @@ Lemma step_inv all pre o post st :
   all = pre ++ o :: post -> st_next st = length pre -> inv all st -> inv all (snd (step st o)).
 Proof.
   intros Hall Hn Hinv. pose proof Hinv as [I1 I2].
-  destruct o as [d|q|q sid|node q sid opened|node c t cancel q fresh|q]; cbn; try (split; assumption).
+  destruct o as [d|q|q sid|node q sid opened h|node c t cancel q fresh h|q|]; cbn; try (split; assumption).
   - destruct opened; [|split; assumption].
     assert (Ho : opened_by all (st_next st) sid).
-    { exists node, q. rewrite Hall, Hn, nth_error_app2, Nat.sub_diag by lia. reflexivity. }
+    { exists node, q, h. rewrite Hall, Hn, nth_error_app2, Nat.sub_diag by lia. reflexivity. }
     split; cbn.
     + intros s [Hs|Hs]; [subst; exact Ho | auto].
-    + destruct (Nat.eqb node 0); [|exact I2]. intros c' sid' [Hc|Hc]; [inversion Hc; subst; exact Ho | auto].
+    + destruct (caching node); [|exact I2]. intros n c' sid' [Hc|Hc]; [inversion Hc; subst; exact Ho | eauto].
   - destruct (find_stream c (st_streams st)) as [s|] eqn:Ef; [|split; assumption].
     destruct (resolve node st s t) as [[sid st']|] eqn:Er; [|split; assumption].
     apply find_stream_some in Ef as [Hs _].
     destruct (resolve_spec all _ _ _ _ _ _ Hinv Hs Er) as [_ [[J1 J2] _]]. split; assumption.
 Qed.
 
-Lemma step_cont_records all st node c t cancel q fresh r :
-  inv all st -> In r (fst (step st (OCont node c t cancel q fresh))) ->
+Lemma step_cont_records all st node c t cancel q fresh h r :
+  inv all st -> In r (fst (step st (OCont node c t cancel q fresh h))) ->
   exists sid, opened_by all c sid /\ r = assemble (dinfo_of q true false sid fresh cancel false).
 Proof.
   intros Hinv. cbn. destruct (find_stream c (st_streams st)) as [s|] eqn:Ef; [|intros []].
   destruct (resolve node st s t) as [[sid st']|] eqn:Er; [|intros []].
   apply find_stream_some in Ef as [Hs Hc].
   destruct (resolve_spec all _ _ _ _ _ _ Hinv Hs Er) as [Ho _]. rewrite Hc in Ho.
-  intros [Hr|[]]. exists sid. auto.
+  cbn [fst]. destruct h; [|intros []]. intros [Hr|[]]. exists sid. auto.
 Qed.
 
 Lemma run_from_cons st o t : run_from st (o :: t) = fst (step st o) :: run_from (snd (step st o)) t.
@@ -510,12 +514,12 @@ Proof. induction ops as [|o t IH]; intro st; [reflexivity|]. rewrite run_from_co
 
 Lemma run_from_cont all : forall post pre st,
   all = pre ++ post -> st_next st = length pre -> inv all st ->
-  forall j node c t cancel q fresh r,
-    nth_error post j = Some (OCont node c t cancel q fresh) ->
+  forall j node c t cancel q fresh h r,
+    nth_error post j = Some (OCont node c t cancel q fresh h) ->
     In r (nth j (run_from st post) []) ->
     exists sid, opened_by all c sid /\ r = assemble (dinfo_of q true false sid fresh cancel false).
 Proof.
-  induction post as [|o post IH]; intros pre st Hall Hn Hinv j node c t cancel q fresh r Hj Hr.
+  induction post as [|o post IH]; intros pre st Hall Hn Hinv j node c t cancel q fresh h r Hj Hr.
   - destruct j; discriminate.
   - rewrite run_from_cons in Hr. destruct j as [|j]; cbn [nth_error] in Hj; cbn [nth] in Hr.
     + inversion Hj; subst o. eapply step_cont_records; eassumption.
@@ -541,22 +545,73 @@ Qed.
 Lemma sid_of_stream d : d_stream d = true -> sid_of (assemble d) = Some (stream_id_of d).
 Proof. intro H. unfold sid_of. now rewrite stream_id_lookup, H. Qed.
 
-Lemma stream_id_stable_lemma ops j node c t cancel q fresh r :
-  nth_error ops j = Some (OCont node c t cancel q fresh) ->
+Lemma sid_of_dinfo q wp sid fresh cancel wb :
+  sid <> [] -> sid_of (assemble (dinfo_of q true wp sid fresh cancel wb)) = Some sid.
+Proof.
+  intro Hne. rewrite sid_of_stream by reflexivity. unfold stream_id_of. cbn [dinfo_of d_stream_id d_fresh_sid].
+  destruct sid; [contradiction | reflexivity].
+Qed.
+
+Lemma stream_id_stable_lemma ops j node c t cancel q fresh h r :
+  nth_error ops j = Some (OCont node c t cancel q fresh h) ->
   In r (nth j (run_from init_state ops) []) ->
-  exists node0 q0 sid,
-    nth_error ops c = Some (OInit node0 q0 sid true)
-    /\ nth c (run_from init_state ops) [] = [assemble (dinfo_of q0 true true sid sid false true)]
-    /\ (sid <> [] -> sid_of r = Some sid
-                     /\ sid_of (assemble (dinfo_of q0 true true sid sid false true)) = Some sid).
+  exists node0 q0 sid h0,
+    nth_error ops c = Some (OInit node0 q0 sid true h0)
+    /\ (sid <> [] -> sid_of r = Some sid)
+    /\ (h0 = true ->
+        nth c (run_from init_state ops) [] = [assemble (dinfo_of q0 true true sid sid false true)]
+        /\ (sid <> [] -> sid_of (assemble (dinfo_of q0 true true sid sid false true)) = Some sid)).
 Proof.
   intros Hj Hr.
-  destruct (run_from_cont ops ops [] init_state eq_refl eq_refl (inv_init ops) _ _ _ _ _ _ _ _ Hj Hr)
-    as [sid [[node0 [q0 Hc]] ->]].
-  exists node0, q0, sid. split; [exact Hc|]. split.
-  - destruct (run_from_nth ops init_state c _ Hc) as [st' ->]. reflexivity.
-  - intro Hne. rewrite !sid_of_stream by reflexivity. unfold stream_id_of; cbn.
-    destruct sid; [contradiction|]. auto.
+  destruct (run_from_cont ops ops [] init_state eq_refl eq_refl (inv_init ops) _ _ _ _ _ _ _ _ _ Hj Hr)
+    as [sid [[node0 [q0 [h0 Hc]]] ->]].
+  exists node0, q0, sid, h0. split; [exact Hc|]. split.
+  - intro Hne. now apply sid_of_dinfo.
+  - intros ->. split.
+    + destruct (run_from_nth ops init_state c _ Hc) as [st' ->]. reflexivity.
+    + intro Hne. now apply sid_of_dinfo.
+Qed.
+
+Lemma forallb_nth {A} (f : A -> bool) l j x : forallb f l = true -> nth_error l j = Some x -> f x = true.
+Proof. intros H Hj. eapply forallb_forall; [exact H | eapply nth_error_In; exact Hj]. Qed.
+
+Lemma hex32_nonempty s : lower_hex 32 s = true -> s <> [].
+Proof. intros H E. subst. discriminate. Qed.
+
+(* every record of every request belonging to stream c — the init if it was
+   logged, and every logged continuation, on whatever node and whatever hooks
+   were installed where — carries the id minted by request c *)
+Lemma stream_record_sid ops : input_wf ops = true -> forall c j o r,
+  nth_error ops j = Some o -> in_stream c j o = true -> In r (nth j (run_from init_state ops) []) ->
+  exists node q sid op h, nth_error ops c = Some (OInit node q sid op h)
+                          /\ lower_hex 32 sid = true /\ sid_of r = Some sid.
+Proof.
+  intros Hwf c j o r Hj Hin Hr.
+  destruct o as [d|q|q sid|node q sid opened h|node c' t cancel q fresh h|q|]; cbn [in_stream] in Hin; try discriminate.
+  - apply Nat.eqb_eq in Hin. subst j.
+    pose proof (forallb_nth _ _ _ _ Hwf Hj) as Ho. cbn [op_wf] in Ho. apply andb_true_iff in Ho as [_ Hhex].
+    destruct (run_from_nth ops init_state c _ Hj) as [st' Est]. rewrite Est in Hr. cbn [step fst] in Hr.
+    destruct h; [|destruct Hr]. destruct Hr as [<-|[]].
+    exists node, q, sid, opened, true. split; [exact Hj|]. split; [exact Hhex|].
+    apply sid_of_dinfo. now apply hex32_nonempty.
+  - apply Nat.eqb_eq in Hin. subst c'.
+    destruct (run_from_cont ops ops [] init_state eq_refl eq_refl (inv_init ops) _ _ _ _ _ _ _ _ _ Hj Hr)
+      as [sid [[node0 [q0 [h0 Hc]]] ->]].
+    pose proof (forallb_nth _ _ _ _ Hwf Hc) as Ho. cbn [op_wf] in Ho. apply andb_true_iff in Ho as [_ Hhex].
+    exists node0, q0, sid, true, h0. split; [exact Hc|]. split; [exact Hhex|].
+    apply sid_of_dinfo. now apply hex32_nonempty.
+Qed.
+
+Lemma one_stream_one_id_lemma ops : input_wf ops = true -> forall c j1 j2 o1 o2 r1 r2,
+  nth_error ops j1 = Some o1 -> nth_error ops j2 = Some o2 ->
+  in_stream c j1 o1 = true -> in_stream c j2 o2 = true ->
+  In r1 (nth j1 (run_from init_state ops) []) -> In r2 (nth j2 (run_from init_state ops) []) ->
+  exists sid, lower_hex 32 sid = true /\ sid_of r1 = Some sid /\ sid_of r2 = Some sid.
+Proof.
+  intros Hwf c j1 j2 o1 o2 r1 r2 H1 H2 I1 I2 R1 R2.
+  destruct (stream_record_sid ops Hwf c j1 o1 r1 H1 I1 R1) as [n1 [q1 [s1 [p1 [h1 [C1 [X1 Y1]]]]]]].
+  destruct (stream_record_sid ops Hwf c j2 o2 r2 H2 I2 R2) as [n2 [q2 [s2 [p2 [h2 [C2 [X2 Y2]]]]]]].
+  rewrite C1 in C2. inversion C2; subst. exists s2. auto.
 Qed.
 
 (* ---- the property holds on every well-formed history of the model ------------- *)
@@ -604,9 +659,6 @@ Proof.
   rewrite H1, H2. destruct stream; [|reflexivity]. specialize (H3 eq_refl). destruct sid; now rewrite H3.
 Qed.
 
-Lemma hex32_nonempty s : lower_hex 32 s = true -> s <> [].
-Proof. intros H E. subst. discriminate. Qed.
-
 Lemma model_nth ops j o :
   nth_error ops j = Some o ->
   nth_error (model ops) j =
@@ -619,28 +671,71 @@ Proof.
   - apply IH; [lia | exact Hj].
 Qed.
 
-Lemma spec_from_intro all : forall ops recs,
-  length recs = length ops ->
-  (forall j o r, nth_error ops j = Some o -> In r (nth j recs []) ->
-     record_ok r && describes all o {| ob_records := nth j recs []; ob_wire_response := wire_of o |} r = true) ->
-  spec_from all ops
-    (map (fun p => {| ob_records := fst p; ob_wire_response := wire_of (snd p) |}) (combine recs ops)) = true.
+(* if every record of stream c in a history carries [sid], and there is one,
+   the first one found carries it *)
+Lemma first_sid_all c sid : forall ops os j,
+  (forall k o x r, nth_error ops k = Some o -> nth_error os k = Some x ->
+                   in_stream c (j + k) o = true -> In r (ob_records x) -> sid_of r = Some sid) ->
+  (exists k o x r, nth_error ops k = Some o /\ nth_error os k = Some x
+                   /\ in_stream c (j + k) o = true /\ In r (ob_records x)) ->
+  first_sid c j ops os = Some sid.
 Proof.
-  induction ops as [|o t IH]; intros [|rs recs] Hl H; try discriminate; [reflexivity|].
-  cbn [combine map spec_from fst snd ob_records]. apply andb_true_iff. split.
-  - apply forallb_forall. intros r Hr. exact (H 0%nat o r eq_refl Hr).
-  - apply IH; [cbn in Hl; lia|]. intros j o' r Hj Hr. exact (H (S j) o' r Hj Hr).
+  induction ops as [|o ops IH]; intros os j Hall H;
+    [destruct H as [k [o' [x [r [Hk _]]]]]; destruct k; discriminate|].
+  destruct os as [|x0 os].
+  - exfalso. destruct H as [k' [o'' [x' [r' [_ [Hx _]]]]]]. destruct k'; discriminate.
+  - cbn [first_sid]. destruct (in_stream c j o) eqn:Ein.
+    + destruct (ob_records x0) as [|r0 rs] eqn:Er.
+      * apply IH.
+        -- intros k1 o1 x1 r1 H1 H2 H3 H4. apply (Hall (S k1) o1 x1 r1 H1 H2); [|exact H4].
+           now rewrite Nat.add_succ_r.
+        -- destruct H as [k' [o'' [x' [r' [A [B [C D]]]]]]]. destruct k' as [|k'].
+           ++ cbn in B. inversion B; subst. rewrite Er in D. destruct D.
+           ++ exists k', o'', x', r'. repeat split; auto. now rewrite Nat.add_succ_l, <- Nat.add_succ_r.
+      * apply (Hall 0%nat o x0 r0 eq_refl eq_refl); [now rewrite Nat.add_0_r | rewrite Er; now left].
+    + apply IH.
+      * intros k1 o1 x1 r1 H1 H2 H3 H4. apply (Hall (S k1) o1 x1 r1 H1 H2); [|exact H4].
+        now rewrite Nat.add_succ_r.
+      * destruct H as [k' [o'' [x' [r' [A [B [C D]]]]]]]. destruct k' as [|k'].
+        -- cbn in A. inversion A; subst. rewrite Nat.add_0_r in C. congruence.
+        -- exists k', o'', x', r'. repeat split; auto. now rewrite Nat.add_succ_l, <- Nat.add_succ_r.
 Qed.
 
-Lemma forallb_nth {A} (f : A -> bool) l j x : forallb f l = true -> nth_error l j = Some x -> f x = true.
-Proof. intros H Hj. eapply forallb_forall; [exact H | eapply nth_error_In; exact Hj]. Qed.
+Lemma same_sid_model ops : input_wf ops = true -> forall c j o r,
+  nth_error ops j = Some o -> in_stream c j o = true -> In r (nth j (run_from init_state ops) []) ->
+  same_sid c ops (model ops) r = true.
+Proof.
+  intros Hwf c j o r Hj Hin Hr.
+  destruct (stream_record_sid ops Hwf c j o r Hj Hin Hr) as [n [q [sid [p [h [Hc [Hhex Hsid]]]]]]].
+  unfold same_sid. rewrite (first_sid_all c sid ops (model ops) 0).
+  - rewrite Hsid. apply beqb_refl.
+  - intros k o1 x1 r1 H1 H2 H3 H4. rewrite (model_nth ops k o1 H1) in H2. inversion H2; subst x1. cbn in H3, H4.
+    destruct (one_stream_one_id_lemma ops Hwf c j k o o1 r r1 Hj H1 Hin H3 Hr H4) as [s [_ [A B]]].
+    congruence.
+  - exists j, o, {| ob_records := nth j (run_from init_state ops) []; ob_wire_response := wire_of o |}, r.
+    split; [exact Hj|]. split; [now apply model_nth|]. split; [exact Hin | exact Hr].
+Qed.
+
+Lemma spec_from_intro ops0 all : forall ops recs j0,
+  length recs = length ops ->
+  (forall j o r, nth_error ops j = Some o -> In r (nth j recs []) ->
+     record_ok r && describes ops0 all (j0 + j) o {| ob_records := nth j recs []; ob_wire_response := wire_of o |} r = true) ->
+  spec_from ops0 all j0 ops
+    (map (fun p => {| ob_records := fst p; ob_wire_response := wire_of (snd p) |}) (combine recs ops)) = true.
+Proof.
+  induction ops as [|o t IH]; intros [|rs recs] j0 Hl H; try discriminate; [reflexivity|].
+  cbn [combine map spec_from fst snd ob_records]. apply andb_true_iff. split.
+  - apply forallb_forall. intros r Hr. specialize (H 0%nat o r eq_refl Hr). now rewrite Nat.add_0_r in H.
+  - apply IH; [cbn in Hl; lia|]. intros j o' r Hj Hr. specialize (H (S j) o' r Hj Hr).
+    now rewrite Nat.add_succ_r in H.
+Qed.
 
 Theorem model_meets_spec ops : input_wf ops = true -> spec_ok ops (model ops) = true.
 Proof.
   intro Hwf. unfold spec_ok. unfold model at 2. apply spec_from_intro; [apply run_from_length|].
-  intros j o r Hj Hr. pose proof (forallb_nth _ _ _ _ Hwf Hj) as Ho.
+  intros j o r Hj Hr. cbn [Nat.add]. pose proof (forallb_nth _ _ _ _ Hwf Hj) as Ho.
   destruct (run_from_nth ops init_state j o Hj) as [st' Est].
-  destruct o as [d|q|q sid|node q sid opened|node c t cancel q fresh|q]; cbn [op_wf] in Ho.
+  destruct o as [d|q|q sid|node q sid opened h|node c t cancel q fresh h|q|]; cbn [op_wf] in Ho.
   - (* direct *)
     rewrite Est in Hr. destruct Hr as [<-|[]]. rewrite record_ok_assemble by exact Ho. cbn [describes andb].
     rewrite claims_part_assemble, payload_or_marker_assemble. now destruct (has_payload d).
@@ -655,25 +750,27 @@ Proof.
       by (apply dinfo_of_wf; auto; intros _; destruct sid; [discriminate | exact Hsid]).
     cbn [describes andb]. apply describes_q_assemble; auto; try (cbn; now apply Hp).
   - (* init *)
+    pose proof (same_sid_model ops Hwf j j _ r Hj (Nat.eqb_refl j) Hr) as Hsame.
     apply andb_true_iff in Ho as [Ho Hsid].
-    rewrite Est in Hr. cbn [step fst] in Hr. destruct Hr as [<-|[]]. destruct (q_wf_parts _ _ Ho) as [Hp [Hs [He _]]].
+    rewrite Est in Hr. cbn [step fst] in Hr. destruct h; [|destruct Hr]. destruct Hr as [<-|[]].
+    destruct (q_wf_parts _ _ Ho) as [Hp [Hs [He _]]].
     rewrite record_ok_assemble
       by (apply dinfo_of_wf; auto; intros _; destruct sid; [discriminate | exact Hsid]).
-    cbn [describes andb]. apply describes_q_assemble; auto; try (cbn; now apply Hp).
+    cbn [describes andb]. rewrite Hsame, andb_true_r.
+    apply describes_q_assemble; auto; try (cbn; now apply Hp).
   - (* continuation *)
-    destruct (run_from_cont ops ops [] init_state eq_refl eq_refl (inv_init ops) _ _ _ _ _ _ _ _ Hj Hr)
-      as [sid [[node0 [q0 Hc]] Er]].
+    pose proof (same_sid_model ops Hwf c j _ r Hj (Nat.eqb_refl c) Hr) as Hsame.
+    destruct (run_from_cont ops ops [] init_state eq_refl eq_refl (inv_init ops) _ _ _ _ _ _ _ _ _ Hj Hr)
+      as [sid [[node0 [q0 [h0 Hc]]] Er]].
     pose proof (forallb_nth _ _ _ _ Hwf Hc) as Hc_wf. cbn [op_wf] in Hc_wf.
     apply andb_true_iff in Hc_wf as [_ Hhex]. pose proof (hex32_nonempty _ Hhex) as Hne.
     destruct (q_wf_parts _ _ Ho) as [_ [Hs [He _]]]. subst r.
     rewrite record_ok_assemble
       by (apply dinfo_of_wf; auto; intros _; destruct sid; [contradiction | exact Hhex]).
-    cbn [describes andb]. apply andb_true_iff. split; [apply describes_q_assemble; auto|].
-    unfold same_sid, init_sid. rewrite (model_nth ops c _ Hc). cbn [ob_records].
-    destruct (run_from_nth ops init_state c _ Hc) as [st'' ->]. cbn [step fst].
-    rewrite !sid_of_stream by reflexivity. unfold stream_id_of. cbn [dinfo_of d_stream_id d_fresh_sid].
-    destruct sid; [contradiction|]. apply beqb_refl.
+    cbn [describes andb]. rewrite Hsame, andb_true_r. apply describes_q_assemble; auto.
   - (* rejected *)
+    rewrite Est in Hr. destruct Hr.
+  - (* noop *)
     rewrite Est in Hr. destruct Hr.
 Qed.
 
@@ -699,8 +796,16 @@ Definition example_q (cl wire : Z) (p : provider) (rd : redactor) : req_env :=
      q_debug := false; q_server_version := []; q_trace := p; q_redactor := rd; q_wire_request := wire |}.
 
 Definition example_history : list op :=
-  [ OInit 0 (example_q 408 408 PNone RDefault) (str "0123456789abcdef0123456789abcdef") true;
-    OCont 1 0 TNone false (example_q 900 900 PPanic RPanic) [] ].
+  [ OInit 0 (example_q 408 408 PNone RDefault) (str "0123456789abcdef0123456789abcdef") true true;
+    OCont 1 0 TNone false (example_q 900 900 PPanic RPanic) [] true ].
+
+(* the late-hook shape: /init on a process that logs nothing (node 2), then a
+   hook appears and two continuations are logged on two different nodes *)
+Definition example_late_hook : list op :=
+  [ OInit 2 (example_q 408 408 PNone RDefault) (str "0123456789abcdef0123456789abcdef") true false;
+    ONoop;
+    OCont 2 0 TNone false (example_q 900 900 PNone RDefault) [] true;
+    OCont 1 0 TNone false (example_q 900 900 PNone RDefault) [] true ].
 
 Definition example_dinfo : dinfo :=
   dinfo_of (example_q 408 408 (PRet (str "0123456789abcdef0123456789abcdef") (str "0123456789abcdef")) RDefault)
@@ -710,7 +815,10 @@ Lemma example_ok :
   input_wf example_history = true
   /\ map (fun x => map sid_of (ob_records x)) (model example_history)
      = [[Some (str "0123456789abcdef0123456789abcdef")]; [Some (str "0123456789abcdef0123456789abcdef")]]
-  /\ dinfo_wf example_dinfo = true /\ trace_ctx (d_trace example_dinfo) <> None.
+  /\ dinfo_wf example_dinfo = true /\ trace_ctx (d_trace example_dinfo) <> None
+  /\ input_wf example_late_hook = true
+  /\ map (fun x => map sid_of (ob_records x)) (model example_late_hook)
+     = [[]; []; [Some (str "0123456789abcdef0123456789abcdef")]; [Some (str "0123456789abcdef0123456789abcdef")]].
 Proof. repeat split; try (vm_compute; reflexivity). vm_compute. discriminate. Qed.
 
 Lemma undeclared_length_witness :
